@@ -169,6 +169,7 @@ for _p in ("C01", "C02", "C21", "C23", "C24", "C26"):
 for _p in ("C20", "C22", "C17", "C18", "C21", "C26"):
     _aug(_p, " + RP: every selection MC_Link checks (pairs, thorough triples, of 9 files x debug) assembled and linked by the real crate in every order and validated by TLC (MC_LinkRP)",
          " RP: MC_LinkRP prints each selection; the harness assembles the files and links the set in every order and bracketing; TV_Asm validates every step.")
+_aug("C18", " + RP: the text of every object of MC_TxtFormat's universe (760) through the real reader and back through the real writer (lc3v replay txt)", " RP: TxtWrite(o) of every object of the universe is given to the real text reader, which must build what TxtRead builds; the real writer must give the same text back.")
 _aug("C25", " + RP: every string MC_SourceInfo checks (9 331) through the real SourceInfo (lc3v replay srcinfo)", " RP: the strings MC_SourceInfo enumerates are printed by TLC, put through the real SourceInfo and validated by TV_Tables.")
 _aug("C10", " + RP: every single placement MC_Interrupt explores (212 behaviours) replayed on the real simulator and validated (lc3v replay interrupt)",
      " RP: MC_InterruptRP prints every placement of one request (three priorities, two devices, every instruction boundary incl. inside the handler; program priority 0 and 4); each is performed on the real simulator with the model's program and handler and TV_Machine decides on IntGate and conformance.")
@@ -176,7 +177,7 @@ _aug("C11", " + RP: 228 start states of MC_OsTraps run on the real simulator and
 _aug("C03", " + RP: each of the 15 360 renderings goes through the real parser, which must read what Grammar!ParseProgram reads (lc3v replay parse)",
      " RP: the renderings MC_Grammar reads back are printed by TLC and given to the real parser; TV_Parse requires the real parser to read exactly what the grammar of the specification reads.")
 _aug("C19", " + RP: every cut file of up to two chunks enumerated by TLC through the real binary reader (lc3v replay fmt)",
-     " RP: the RP configuration of MC_ObjFormat prints every file of up to two chunks cut at every length (3 960); each goes through the real binary reader and TV_Fmt compares verdict and object with BinRead.")
+     " RP: the RP configuration of MC_ObjFormat prints every file of up to two chunks cut at every length (3 960) and one serialization of each of 6 852 objects; each goes through the real binary reader and TV_Fmt compares verdict and object with BinRead.")
 _aug("C13", " + RP: TLC (MC_RunRP) prints every maximal behaviour with up to 2/3 free calls; each is replayed on the real simulator and validated by TLC",
      " RP: MC_RunRP prints each maximal behaviour (breakpoint set, calls, run until halted: 185, thorough 1 500); the harness performs them on real simulators and TV_Machine validates every call against Run!RunCall, the last one leaving the machine halted.")
 _aug("C12", " + RP: the programs of MC_TrapMode (one/two fragments) replayed on the real simulator under both trap modes and validated by TLC",
